@@ -77,3 +77,53 @@ Qed.
 
 Lemma cx_statuses : cstatus cx_owner (c_st ev cx_c2 0) 1000 = Active 1 1 /\ cstatus cx_owner (c_st ev cx_c2 1) 1000 = Active 1 1.
 Proof. split; vm_compute; reflexivity. Qed.
+
+(* ---- C05: ... then event b at instance 1 completes the run there, and the old note arrives once more ---- *)
+Definition cx_e1 : ev := mkEv 1 1 0 2 0 0.
+Definition cx_s2' : dstate ev :=
+  match local_step (icfg cx_cfg cx_gen 1) cx_s1' cx_e1 with Ok (s, _) => s | Exn _ => d_init end.
+Definition cx_n2 : note ev :=
+  match local_step (icfg cx_cfg cx_gen 1) cx_s1' cx_e1 with Ok (_, n) => n | Exn _ => mkNote [] [] [] end.
+Definition cx_s3' : dstate ev := fst (remote_apply (icfg cx_cfg cx_gen 1) cx_s2' cx_n1).
+
+Definition cx_c3 : ccl ev :=
+  mkC ev (fun k => if Nat.eqb k 0 then cx_s1 else if Nat.eqb k 1 then cx_s2' else d_init) (mfacts 0 cx_n1 ++ mfacts 1 cx_n2).
+Definition cx_c4 : ccl ev :=
+  mkC ev (fun k => if Nat.eqb k 0 then cx_s1 else if Nat.eqb k 1 then cx_s3' else d_init) (mfacts 0 cx_n1 ++ mfacts 1 cx_n2).
+
+Lemma cx_step3 : local_step (icfg cx_cfg cx_gen 1) cx_s1' cx_e1 = Ok (cx_s2', cx_n2).
+Proof. vm_compute. reflexivity. Qed.
+
+Lemma cx_step4 : remote_apply (icfg cx_cfg cx_gen 1) cx_s2' cx_n1 = (cx_s3', snd (remote_apply (icfg cx_cfg cx_gen 1) cx_s2' cx_n1)).
+Proof. unfold cx_s3'. destruct (remote_apply _ _ _). reflexivity. Qed.
+
+Lemma cx_good2 : good ev cx_owner cx_cfg cx_gen cx_c2.
+Proof.
+  apply (csteps_refine ev cx_owner cx_cfg cx_gen cx_pat cx_cfg_wf) with (c := c_init ev).
+  - discriminate.
+  - apply good_init.
+  - exact cx_csteps.
+Qed.
+
+Lemma cx_csteps_more : csteps ev cx_owner cx_cfg cx_gen cx_c2 cx_c4.
+Proof.
+  eapply CS_step; [eapply CS_step; [apply CS_refl|]|].
+  - apply (C_local ev cx_owner cx_cfg cx_gen 1 cx_c2 cx_c3 cx_e1 cx_n2).
+    + exact cx_step3.
+    + vm_compute. split; repeat constructor.
+    + unfold note_owned. vm_compute. repeat constructor.
+    + intros k Hk. simpl. destruct k as [|[|k]]; [reflexivity|congruence|reflexivity].
+    + reflexivity.
+  - (* the stale note of the first step, delivered again after the run completed at instance 1 *)
+    apply (C_deliver ev cx_owner cx_cfg cx_gen 0 1 cx_c3 cx_c4 cx_n1 (snd (remote_apply (icfg cx_cfg cx_gen 1) cx_s2' cx_n1))).
+    + intros f Hf. change (In f (mfacts 0 cx_n1 ++ mfacts 1 cx_n2)). apply in_or_app. now left.
+    + unfold wf_msg, wf_rec. vm_compute. repeat split; repeat constructor. eexists. reflexivity.
+    + vm_compute. split; repeat constructor.
+    + exact cx_step4.
+    + intros k Hk. simpl. destruct k as [|[|k]]; [reflexivity|congruence|reflexivity].
+    + reflexivity.
+Qed.
+
+Lemma cx_completed : cstatus cx_owner (c_st ev cx_c3 1) 1000 = Completed /\ cstatus cx_owner (c_st ev cx_c4 1) 1000 = Completed /\
+                     rt_all (d_runs (c_st ev cx_c4 1)) = [].
+Proof. repeat split; vm_compute; reflexivity. Qed.
